@@ -14,6 +14,7 @@ import AdaptiveModel.Drv.Prims
 import AdaptiveModel.Drv.Quad
 import AdaptiveModel.Drv.Choose
 import AdaptiveModel.Drv.L2D
+import AdaptiveModel.Drv.Prims2
 /-!
 Line-protocol driver: `lake env lean --run Driver.lean < ops.txt`.
 Each input line is `<component> <op> <args…>`; one output line per input line.
@@ -49,6 +50,7 @@ def stepAll (a : All) (line : String) : All × String :=
   | "prims" :: rest => (a, Prims.Drv.stepLine rest)
   | "quad" :: rest => (a, Quad.Drv.stepLine rest)
   | "choose" :: rest => (a, Choose.Drv.stepLine rest)
+  | "prims2" :: rest => (a, Prims2.Drv.stepLine rest)
   | "l2d" :: rest => let (s, o) := L2D.Drv.stepLine a.l2d rest; ({ a with l2d := s }, o)
   | _ => (a, "bad-component")
 
